@@ -678,3 +678,119 @@ func ruleMinMax(p *Program, r *Report) {
 }
 
 func init() { register("C06", Rule{"R06e", ruleMinMax}) }
+
+// ruleOrderedNamesCache (R06f): GenericTuple.names is the cache of the tuple's attribute names in the one order
+// GenericTuple.Less and Format walk.  Every store to it must leave it sorted: the store is followed, on every path,
+// by sort.Strings of the same field, or the stored value is another tuple's TupleOrderedNames() result (sorted by
+// induction), or nil.
+func ruleOrderedNamesCache(p *Program, r *Report) {
+	r.Begin("R06f", "ordered-names cache: every store to GenericTuple.names (the name order Less and Format walk) is post-dominated by sort.Strings of that field, or stores nil / another tuple's TupleOrderedNames() result; a store of any other slice makes two equal tuples order and print differently", 1)
+	defer r.End()
+	ton := p.Func("rel", "TupleOrderedNames")
+	isNamesAddr := func(v ssa.Value) (*ssa.FieldAddr, bool) {
+		fa, ok := v.(*ssa.FieldAddr)
+		if !ok {
+			return nil, false
+		}
+		st := structOf(fa.X.Type())
+		if st == nil || TypeName(Deref(fa.X.Type())) != "rel.GenericTuple" || st.Field(fa.Field).Name() != "names" {
+			return nil, false
+		}
+		return fa, true
+	}
+	for _, fn := range p.RepoFns {
+		var stores []*ssa.Store
+		ForEachInstr(fn, func(ins ssa.Instruction) {
+			if st, ok := ins.(*ssa.Store); ok {
+				if _, is := isNamesAddr(st.Addr); is {
+					stores = append(stores, st)
+				}
+			}
+		})
+		if len(stores) == 0 {
+			continue
+		}
+		r.Fn(FnName(fn))
+		// sort.Strings(<load of X.names>) calls in fn
+		type sortSite struct {
+			c    *ssa.Call
+			base ssa.Value
+		}
+		var sorts []sortSite
+		ForEachInstr(fn, func(ins ssa.Instruction) {
+			c, ok := ins.(*ssa.Call)
+			if !ok {
+				return
+			}
+			g := c.Call.StaticCallee()
+			if g == nil || g.Pkg == nil || g.Pkg.Pkg.Path() != "sort" || g.Name() != "Strings" || len(c.Call.Args) != 1 {
+				return
+			}
+			if ld, ok := c.Call.Args[0].(*ssa.UnOp); ok {
+				if fa, is := isNamesAddr(ld.X); is {
+					sorts = append(sorts, sortSite{c, fa.X})
+				}
+			}
+		})
+		pd := NewPostDom(fn)
+		for i, st := range stores {
+			fa, _ := isNamesAddr(st.Addr)
+			key := fmt.Sprintf("names-store@%s~%d", FnName(fn), i+1)
+			if IsNilConst(st.Val) {
+				r.OK(key, "stores nil (cache empty)", st.Pos())
+				continue
+			}
+			if c, ok := st.Val.(*ssa.Call); ok && ton != nil && c.Call.StaticCallee() == ton {
+				r.OK(key, "stores another tuple's TupleOrderedNames() (sorted)", st.Pos())
+				continue
+			}
+			sorted := false
+			for _, s := range sorts {
+				if !sameBase(fn, s.base, fa.X) {
+					continue
+				}
+				sb, tb := s.c.Block(), st.Block()
+				if sb == tb {
+					after := false
+					for _, ins := range tb.Instrs {
+						if ins == ssa.Instruction(st) {
+							after = true
+						}
+						if ins == ssa.Instruction(s.c) && after {
+							sorted = true
+						}
+					}
+				} else if pd.PostDominates(sb, tb) {
+					sorted = true
+				}
+			}
+			r.Check(sorted, key, "followed on every path by sort.Strings of the same field", fmt.Sprintf("%s stores a name list into GenericTuple.names that is not sorted afterwards: GenericTuple.Less and Format walk this list positionally, so this tuple orders and prints differently from an equal tuple whose cache was computed by TupleOrderedNames", FnName(fn)), st.Pos())
+		}
+	}
+}
+
+func init() {
+	register("C06", Rule{"R06f", ruleOrderedNamesCache})
+	register("C12", Rule{"R06f", ruleOrderedNamesCache})
+	register("C07", Rule{"R06f", ruleOrderedNamesCache})
+}
+
+// sameBase: two tuple pointers are the same value — identical, structurally equal, or loads of one cell (captured
+// variable, local) that the function never stores to.
+func sameBase(fn *ssa.Function, a, b ssa.Value) bool {
+	if a == b || sameValue(a, b, 0) {
+		return true
+	}
+	la, ok1 := a.(*ssa.UnOp)
+	lb, ok2 := b.(*ssa.UnOp)
+	if !ok1 || !ok2 || la.Op != token.MUL || lb.Op != token.MUL || la.X != lb.X {
+		return false
+	}
+	stored := false
+	ForEachInstr(fn, func(ins ssa.Instruction) {
+		if st, ok := ins.(*ssa.Store); ok && st.Addr == la.X {
+			stored = true
+		}
+	})
+	return !stored
+}
